@@ -588,6 +588,14 @@ def handle? : List String → Option String
     let data ← parseData? data
     let sizes ← parseNats? sizes
     some (handleDeflate data sizes)
+  | ["deflatesw", data, sizes, _maxWrite] => do
+    -- `deflate::Write` over an inner writer that accepts at most `maxWrite` bytes per call: `write_inner` hands every
+    -- batch to `inner.write_all`, and `write_all` over a prefix-accepting writer delivers the whole batch
+    -- (Props.C56.inner_write_all_independent), so the model's sink is the same as for `deflate`
+    let data ← parseData? data
+    let sizes ← parseNats? sizes
+    let _ ← _maxWrite.toNat?
+    some (handleDeflate data sizes)
   | ["hash", kind, data, sizes, maxWrite] => do
     let kind ← parseKind? kind
     let data ← parseData? data
